@@ -132,7 +132,9 @@ fn finish(mut b: Base, quiet_from: u64, tail: u64) -> Plan {
     b.plan.quiet_from = quiet_from;
     // every block may cost three round trips (filters, proof, body) with batch size 1
     let rtt = b.plan.peers.iter().map(|p| 2 * (p.latency + p.jitter)).max().unwrap_or(100);
-    let work = (b.plan.initial_blocks + 60) * 4 * rtt;
+    // ... and every check-point interval costs a hashes round (10 s timer) plus the 15 s re-ask rule
+    let intervals = (b.plan.initial_blocks + 60) / b.plan.knobs.check_point_interval.max(1) + 1;
+    let work = (b.plan.initial_blocks + 60) * 4 * rtt + intervals.min(200) * 30_000;
     b.plan.max_time = quiet_from + tail + work;
     // The world never stops: after the faults stopped a block arrives every 20..50 s on the
     // main chain (an unchanged last state for 60 s makes the client drop the peer by design).
